@@ -407,7 +407,17 @@ def run_c13(ctx, fa):
                     back3 = {"ok": True, "v": proj.pv(fa.schemaless_reader(io.BytesIO(data), tree2, raw))}
                 except Exception as e:  # noqa: BLE001
                     back3 = {"ok": False, "exc": proj.pexc(e)["exc"]}
-                c["enc"].append({"bytes": list(data), "back": back, "back2": back2, "back3": back3})
+                # ... and read with a cosmetic rewrite of the schema as reader schema (dict-form primitives, extra attributes, other spelling)
+                back4 = None
+                if c["variants"]:
+                    try:
+                        back4 = {"ok": True, "v": proj.pv(fa.schemaless_reader(io.BytesIO(data), raw, proj.unpj(c["variants"][0]["schema"])))}
+                    except Exception as e:  # noqa: BLE001
+                        back4 = {"ok": False, "exc": proj.pexc(e)["exc"]}
+                ent = {"bytes": list(data), "back": back, "back2": back2, "back3": back3}
+                if back4 is not None:
+                    ent["back4"] = back4
+                c["enc"].append(ent)
         cases.append(c)
     ctx.rule = ("seeded valid schemas; for each: fastavro's canonical text against AvroCanon!CanonText, re-application to its own output, 1-3 cosmetic "
                 "rewrites (doc, aliases, defaults removed, order, custom and logical attributes, attribute order, name spelling, dict-form primitives), "
